@@ -177,6 +177,11 @@ theorem checkPat_just {B funs} : ∀ (p : IPat) ty Γ (s : St),
     refine ⟨hΓ, ?_⟩
     simp only [pobls, pself, plink]
     exact JL.cons (Or.inl rfl) (JL.one (Or.inr (mem_push _ _)))
+  · intro k ty Γ s _ hΓ
+    simp only [checkPat]
+    refine ⟨hΓ, ?_⟩
+    simp only [pobls, pself, plink]
+    exact JL.cons (Or.inl rfl) (JL.one (Or.inr (mem_push _ _)))
   · intro ps ih ty Γ s hB hΓ
     simp only [checkPat, pbinders] at hB ⊢
     obtain ⟨h1, h2⟩ := ih _ Γ (tupleElemTys ps.length ty s).2 hB hΓ
